@@ -36,7 +36,7 @@ class EpochRules:
         self.ctor = self.one([f for f in fx.functions.values() if f.get('record') == self.em['name'] and f['kind'] == 'ctor'], 'EpochManager()')
         self.dtor = self.one([f for f in fx.functions.values() if f.get('record') == self.em['name'] and f['kind'] == 'dtor'], '~EpochManager')
         self.allfns = [f for f in fx.functions.values() if f['tu'] in ('epoch_manager.cpp', 'epoch.cpp', 'epoch_guard.cpp') and
-                       (f.get('record') or '').startswith((self.em['name'], self.ep['name'], self.guard['name']))]
+                       (f.get('record') or '').startswith((self.em['name'], self.ep['name'], self.guard['name'])) and not eng.private_helper(f)]
         # fields by role
         self.glob = self.field_returned_by('GetCurrentEpoch')
         self.minf = self.field_returned_by('GetMinEpoch')
@@ -137,6 +137,58 @@ class EpochRules:
                 good = a1 is not None and (a1 == ('lv', lst, None) or show(a1) == show(lst))
                 sink.emit('C04.PUBLISH', 'ok' if good else 'violated', 'the list filled is the list of the next epoch', self.loc(fw, col[0]['line']), show(a1))
         self.scan()
+
+    def cur_epoch(self, p):
+        loads = [x for x in p.events if x['kind'] == 'atomic' and x['op'] == 'load' and x['obj'] == ('field', S('this'), self.glob)]
+        return loads[0]['result'] if loads else None
+
+    def is_next(self, p, v):
+        cur = self.cur_epoch(p)
+        return cur is not None and v == ('op', '+', cur, C(1), 64)
+
+    def boundary_truth(self, p):
+        """does this path of ForwardGlobalEpoch establish that the next epoch starts a new range?  (True/False/None, problem).
+        Accepted spellings: (next & lower) ==/!= 0, (next % capacity) ==/!= 0, (cur & lower) ==/!= lower."""
+        cur = self.cur_epoch(p)
+        if cur is None:
+            return None, None
+        nxt = ('op', '+', cur, C(1), 64)
+        lower = self.consts.get(self.em['name'] + '::kLowerMask')
+        res, prob = None, None
+        for c, o, _ in p.conds:
+            neg = False
+            while isinstance(c, tuple) and c and c[0] == 'not':
+                c, neg = c[1], not neg
+            if isinstance(c, tuple) and c and c[0] == 'ne0':
+                c = ('op', '!=', c[1], C(0), 1)
+            elif isinstance(c, tuple) and c and c[0] == 'op' and c[1] in ('&', '%'):
+                c = ('op', '!=', c, C(0), 1)
+            if not (isinstance(c, tuple) and c and c[0] == 'op' and c[1] in ('==', '!=')):
+                continue
+            a, b = c[2], c[3]
+            if is_const(a) and not is_const(b):
+                a, b = b, a
+            if not (is_const(b) and isinstance(a, tuple) and a and a[0] == 'op' and a[1] in ('&', '%')):
+                continue
+            x, k = a[2], a[3]
+            if is_const(x) and not is_const(k):
+                x, k = k, x
+            if not is_const(k):
+                continue
+            if not ((a[1] == '&' and k[1] == lower) or (a[1] == '%' and k[1] == lower + 1)):
+                continue
+            truth = (o != neg) if c[1] == '==' else ((not o) != neg)
+            if x == nxt and b[1] == 0:
+                res = truth
+            elif x == cur and a[1] == '&' and b[1] == lower:
+                res = truth
+            elif x == cur and a[1] == '%' and b[1] == lower:
+                res = truth
+            else:
+                prob = 'the range test %s does not test whether the next epoch (%s) starts a new range' % (show(c), show(nxt))
+        if prob:
+            return None, prob
+        return res, None
 
     def list_obj(self, p):
         """object path of the list ForwardGlobalEpoch obtains for next_epoch"""
@@ -339,8 +391,15 @@ class EpochRules:
             sink.emit('C04.ENTER', 'ok' if good else 'violated', 'GetProtectedEpoch returns the pinned epoch', self.loc(self.F['ep.GetProtectedEpoch']), '')
         fld = next(f for f in self.ep['fields'] if f['name'] == self.entf)
         n = fld.get('init') or {}
-        while n.get('k') in ('initlist',) and n.get('items'):
-            n = n['items'][0]
+        for _ in range(8):
+            if n.get('k') == 'initlist' and n.get('items'):
+                n = n['items'][0]
+            elif n.get('k') == 'construct' and len(n.get('args') or []) == 1:
+                n = n['args'][0]
+            elif n.get('k') == 'cast':
+                n = n['e']
+            else:
+                break
         ok0 = 'numeric_limits' in str(n) or (n.get('k') == 'const' and int(n['v']) == MAXV) or ('max' in str(n.get('callee', '')))
         sink.emit('C04.ENTER', 'ok' if ok0 else 'violated', 'a fresh slot pins nothing (sentinel)', '%s:%s' % (self.ep['file'], fld['line']), '')
         # EP.GUARD
@@ -434,11 +493,20 @@ class EpochRules:
             cg = [e for e in p.events if e['kind'] == 'call' and e.get('callee') == self.F['CreateEpochGuard']['key']]
             gp = [e for e in p.events if e['kind'] == 'call' and e.get('name') == 'GetProtectedEpoch']
             ng = [e for e in p.events if e['kind'] == 'call' and e.get('callee') == self.F['node.Get']['key']]
+            def is_guard(obj):
+                # the object CreateEpochGuard returned: bound to a reference, or held by value in a local initialised with it
+                if not cg:
+                    return False
+                res = cg[0]['result']
+                if obj in (('deref', res), res):
+                    return True
+                return isinstance(obj, tuple) and obj and obj[0] == 'var' and \
+                    any(d['kind'] == 'decl' and d.get('did') == obj[1] and d.get('value') == res for d in p.events)
             good = len(cg) == 1 and len(gp) == 1 and len(ng) == 1 and cg[0]['seq'] < gp[0]['seq'] < ng[0]['seq'] and \
-                gp[0]['obj'] == ('deref', cg[0]['result']) and ng[0]['args'][0] == gp[0]['result'] and ng[0]['args'][1] == S('this->' + self.head)
+                is_guard(gp[0]['obj']) and ng[0]['args'][0] == gp[0]['result'] and ng[0]['args'][1] == S('this->' + self.head)
             sink.emit('C17.OWN', 'ok' if good else 'violated', 'the list is looked up by the returned guard\'s own epoch, after the guard was created', self.loc(f), '')
             r = p.ret
-            good = isinstance(r, tuple) and r[0] == 'obj' and 'pair' in r[1] and len(r[3]) == 2 and cg and show(r[3][0]) == show(('deref', cg[0]['result'])) and \
+            good = isinstance(r, tuple) and r[0] == 'obj' and 'pair' in r[1] and len(r[3]) == 2 and cg and show(r[3][0]) in (show(('deref', cg[0]['result'])), show(cg[0]['result'])) and \
                 ng and show(r[3][1]) == show(('deref', ng[0]['result']))
             sink.emit('C17.OWN', 'ok' if good else 'violated', 'the pair returned holds that guard and that list', self.loc(f, p.ret_line), 'returns %s' % show(r))
         # node lookup
@@ -591,17 +659,37 @@ class EpochRules:
                             init = e.get('init')
                             good = bool(asg) and isinstance(init, tuple) and init[0] == 'obj' and len(init[3]) == 2 and init[3][1] == S('this->' + self.head)
                             sink.emit('C20.ALLOC', 'ok' if good else 'violated', 'a new node becomes the head and links to the previous head', self.loc(f, e['line']), show(init))
-                            # only at a node boundary
-                            cap = self.consts.get(self.em['name'] + '::kLowerMask')
-                            bd = [o for c, o, _ in p.conds if isinstance(c, tuple) and c[0] == 'op' and c[1] == '==' and is_const(c[3]) and c[3][1] == 0 and
-                                  isinstance(c[2], tuple) and c[2][0] == 'op' and c[2][1] == '&' and is_const(c[2][3]) and c[2][3][1] == cap]
-                            sink.emit('C20.ALLOC', 'ok' if (bd and bd[-1]) else 'violated', 'a node is allocated only when the next epoch starts a new 256-epoch range', self.loc(f, e['line']), '')
+                            # the node's range is the next epoch, and the lookup that follows sees the new head
+                            good = isinstance(init, tuple) and init[0] == 'obj' and len(init[3]) == 2 and self.is_next(p, init[3][0])
+                            sink.emit('C20.ALLOC', 'ok' if good else 'violated', 'a new node is created for the range of the next epoch', self.loc(f, e['line']), show(init))
+                            look = [x for x in p.events if x['kind'] == 'call' and x.get('callee') == self.F['node.Get']['key']]
+                            good = bool(look) and bool(asg) and all(x['seq'] > asg[0]['seq'] for x in look)
+                            sink.emit('C20.ALLOC', 'ok' if good else 'violated', 'the new node is the head before the list of the next epoch is looked up', self.loc(f, e['line']), '')
                         elif f['key'] == self.ctor['key']:
                             init = e.get('init')
                             good = isinstance(init, tuple) and init[0] == 'obj' and len(init[3]) == 2 and is_const(init[3][1]) and init[3][1][1] == 0
                             sink.emit('C20.ALLOC', 'ok' if good else 'violated', 'the initial node has no successor', self.loc(f, e['line']), show(init))
                         else:
                             sink.bad('C20.ALLOC', '%s allocates a list node' % sname(f['name']), self.loc(f, e['line']), '')
+        # a node is allocated exactly when the next epoch starts a new range: decided on every path of ForwardGlobalEpoch
+        for p in self.paths(fw):
+            news = [e for e in p.events if e['kind'] == 'new' and 'ProtectedNode' in e['type']]
+            bt, why = self.boundary_truth(p)
+            loc = self.loc(fw, news[0]['line'] if news else p.ret_line)
+            if bt is None:
+                if why:
+                    sink.bad('C20.ALLOC', 'a node is allocated exactly when the next epoch starts a new 256-epoch range', loc, why)
+                else:
+                    sink.unsup('C20.ALLOC', 'node boundary test', loc, 'no test of the next epoch against the range size found on this path')
+                continue
+            good = (len(news) == 1) if bt else (not news)
+            sink.emit('C20.ALLOC', 'ok' if good else 'violated', 'a node is allocated exactly when the next epoch starts a new 256-epoch range', loc,
+                      'boundary=%s, %d allocation(s) on the path' % (bt, len(news)))
+            # the lookup uses the head as it is after the possible allocation
+            for x in p.events:
+                if x['kind'] == 'call' and x.get('callee') == self.F['node.Get']['key'] and len(x['args']) > 1:
+                    want = news[0]['result'] if news else S('this->' + self.head)
+                    sink.emit('C20.ALLOC', 'ok' if x['args'][1] == want else 'violated', 'the list of the next epoch is looked up from the current head', self.loc(fw, x['line']), show(x['args'][1]))
         # ProtectedNode ctor
         nc = [f for f in self.fx.functions.values() if f.get('record') == self.node['name'] and f['kind'] == 'ctor']
         for f in nc:
@@ -628,9 +716,18 @@ class EpochRules:
             if dels:
                 first = dels[0]['value']
                 sink.emit('C20.WALK', 'ok' if first == S('this->' + self.head) else 'violated', '~EpochManager starts at the list head', self.loc(d, dels[0]['line']), norm(first))
-            # exit only when the cursor is null
-            nul = [c for c, o, _ in p.conds if isinstance(c, tuple) and c[0] == 'op' and c[1] == '!=' and is_const(c[3]) and c[3][1] == 0 and not o]
-            sink.emit('C20.WALK', 'ok' if nul else 'violated', '~EpochManager walks until the cursor is null', self.loc(d, p.ret_line), '')
+            # exit only when the cursor is null: the pointer tested last is the successor of the last deleted node (or the head)
+            last = S(show(('field', dels[-1]['value'], self.nextf))) if dels else S('this->' + self.head)
+            nul = [c for c, o, _ in p.conds if isinstance(c, tuple) and c[0] == 'op' and c[1] in ('!=', '==') and is_const(c[3]) and c[3][1] == 0 and (o == (c[1] == '=='))]
+            bases = {e['value'][1].split('~')[0] for q in ps for e in q.events if e['kind'] == 'delete' and isinstance(e['value'], tuple) and e['value'][0] == 's' and '~' in e['value'][1]}
+
+            def cursor(v):
+                # the head, the successor of the node deleted last, or the (widened) loop variable whose value is what an iteration deletes
+                return v == last or v == S('this->' + self.head) and not dels or \
+                    (isinstance(v, tuple) and v[0] == 's' and '~' in v[1] and v[1].split('~')[0] in bases and '->' not in v[1])
+            good = bool(nul) and cursor(nul[-1][2])
+            sink.emit('C20.WALK', 'ok' if good else 'violated', '~EpochManager walks until the cursor is null', self.loc(d, p.ret_line),
+                      'the walk ends when %s is null' % show(last) if good else 'the walk ends on a test of %s, not of the successor of the last deleted node (%s): a node is leaked' % (show(nul[-1][2]) if nul else 'nothing', show(last)))
         if dels_total < 2:
             sink.unsup('C20.WALK', '~EpochManager', self.loc(d), 'no path through a general loop iteration')
         # after delete no access (generic, also in dtor)
